@@ -1016,29 +1016,35 @@ def tInit {X : Type} (start : ExpectedStart X) (bs : Bytes) : TState X :=
       | .value => .readRootValue
       | .valueBody vk => .readRootValueBody vk }
 
+/-- How a traverser state ends a run: `some true` after `End`, `some false` after `DecodeError`. -/
+def TState.done {X : Type} (st : TState X) : Option Bool :=
+  match st.action with
+  | .ended => some true
+  | .errored => some false
+  | _ => none
+
 /-- Pull events until `End` or `DecodeError` (the caller contract of `next_event`). `fuel` bounds
-the number of events; `3 * |input| + 3` always suffices (`Lemmas/SborTraverse`). The flag of the
-result is `true` iff the run stopped because of `End`/`DecodeError` (not fuel). -/
-def tRun {X Y : Type} (F : Flavour X Y) (c : TCfg) : Nat → TState X → List (Located X Y) × Bool
-  | 0, _ => ([], false)
+the number of events. The second component is `some true` if the run stopped with `End`,
+`some false` if it stopped with `DecodeError`, `none` if the fuel ran out. -/
+def tRun {X Y : Type} (F : Flavour X Y) (c : TCfg) : Nat → TState X → List (Located X Y) × Option Bool
+  | 0, _ => ([], none)
   | fuel + 1, st =>
     match tStep F c st with
-    | none => ([], false)
+    | none => ([], none)
     | some (ev, st') =>
-      match st'.action with
-      | .errored => ([ev], true)
-      | .ended => ([ev], true)
-      | _ =>
-        let (evs, done) := tRun F c fuel st'
-        (ev :: evs, done)
+      match st'.done with
+      | some b => ([ev], some b)
+      | none =>
+        let r := tRun F c fuel st'
+        (ev :: r.1, r.2)
 
 def traverse {X Y : Type} (F : Flavour X Y) (start : ExpectedStart X) (maxDepth : Nat) (checkExactEnd : Bool)
-    (bs : Bytes) : List (Located X Y) × Bool :=
+    (bs : Bytes) : List (Located X Y) × Option Bool :=
   tRun F { maxDepth := maxDepth, checkExactEnd := checkExactEnd, total := bs.length }
     (3 * bs.length + 3) (tInit start bs)
 
 /-- Traversal of a full payload as `*_payload_traverser` does (prefix expected, exact end). -/
-def traversePayload {X Y : Type} (F : Flavour X Y) (maxDepth : Nat) (bs : Bytes) : List (Located X Y) × Bool :=
+def traversePayload {X Y : Type} (F : Flavour X Y) (maxDepth : Nat) (bs : Bytes) : List (Located X Y) × Option Bool :=
   traverse F (.payloadPrefix F.payloadPrefix) maxDepth true bs
 
 /-! ## Depth and size of values -/
